@@ -224,6 +224,17 @@ def run_case(ctx, Livetime, get_data_subset, DatasetData, DFRA, case, model_expr
     query) -- no query may remember anything of the earlier set."""
     ivs = case['ivs']
     arr = np.array([[z2f(a), z2f(b)] for a, b in ivs], dtype=np.float64).reshape((len(ivs), 2))
+    # memory layout of the (N,2) array is not part of the contract: C-contiguous, Fortran-ordered
+    # (np.array([starts, stops]).T) and strided views must all behave alike
+    layout = case.get('layout', 'C')
+    if layout == 'F':
+        arr = np.array([arr[:, 0].copy(), arr[:, 1].copy()], dtype=np.float64).T
+    elif layout == 'S':
+        big = np.full((len(ivs), 5), -7.0, dtype=np.float64)
+        big[:, 1] = arr[:, 0]
+        big[:, 3] = arr[:, 1]
+        arr = big[:, 1::2]
+    ctx.count('layout:' + layout)
     arr_snap = arr.copy()
     if reuse is None:
         lt = Livetime(arr)
@@ -298,7 +309,23 @@ def run_case(ctx, Livetime, get_data_subset, DatasetData, DFRA, case, model_expr
     draws = case['draws']
     # the un-windowed draw is made first AND again after the windowed ones (history probe: a
     # windowed draw must leave nothing behind that a later un-windowed draw sees)
-    for (kind, t1, t2) in [(None, None, None)] + case['windows'][:3] + [(None, None, None)]:
+    # one-sided windows (only t_min / only t_max given; the other bound is None) go through the
+    # model's draw_opt; a given bound may be exactly 0
+    one_sided = []
+    for (k0, a0, b0) in case['windows'][:2]:
+        if abs(a0) < 10 ** 15:
+            one_sided.append(('tmin-only', a0, None))
+        if abs(b0) < 10 ** 15:
+            one_sided.append(('tmax-only', None, b0))
+    one_sided += [('tmin-only', 0, None), ('tmax-only', None, 0)]
+    for (kind, t1, t2) in [(None, None, None)] + case['windows'][:3] + one_sided + [(None, None, None)]:
+        opt = kind in ('tmin-only', 'tmax-only')
+        o1, o2 = t1, t2
+        if opt:
+            t1 = ivs[0][0] if o1 is None else o1
+            t2 = ivs[-1][1] if o2 is None else o2
+            if t1 > t2:
+                continue
         if kind is None:
             arrz = ivs
         else:
@@ -322,13 +349,22 @@ def run_case(ctx, Livetime, get_data_subset, DatasetData, DFRA, case, model_expr
         try:
             if kind is None:
                 o = lt.draw_ontimes(StubRSS(xs), len(xs))
+            elif opt:
+                o = lt.draw_ontimes(StubRSS(xs), len(xs), t_min=None if o1 is None else z2f(o1),
+                                    t_max=None if o2 is None else z2f(o2))
             else:
                 o = lt.draw_ontimes(StubRSS(xs), len(xs), t_min=as_float_window(t1), t_max=as_float_window(t2))
             impl_d = ['Ok'] + [f2z(float(v)) for v in o]
         except Exception as ex:
             impl_d = ['Err', exc_name(ex)]
-        win = 'None' if kind is None else f'(Some ({zlit(t1)}, {zlit(t2)}))'
-        model_exprs.append(f'mapM (draw {civs} {win}) {zlist(ws)}')
+        if opt:
+            m1 = 'None' if o1 is None else f'(Some {zlit(o1)})'
+            m2 = 'None' if o2 is None else f'(Some {zlit(o2)})'
+            model_exprs.append(f'mapM (draw_opt {civs} {m1} {m2}) {zlist(ws)}')
+            ctx.count('draw_one_sided')
+        else:
+            win = 'None' if kind is None else f'(Some ({zlit(t1)}, {zlit(t2)}))'
+            model_exprs.append(f'mapM (draw {civs} {win}) {zlist(ws)}')
         checks.append(('draw', {'ivs': ivs, 'window': (kind, t1, t2), 'draws': draws, 'scale': SCALE}, impl_d))
         ctx.count('draw_cases')
         if impl_d[0] == 'Ok':
@@ -465,6 +501,7 @@ def run(ctx):
     model_exprs, checks = [], []
     shared = None            # one object serves every second case (history: query, assign, query, ...)
     for i, c in enumerate(cases):
+        c.setdefault('layout', 'CFS'[i % 3] if i else 'F')
         ctx.case(c)
         if i % 2 == 1:
             shared = run_case(ctx, Livetime, get_data_subset, DatasetData, DFRA, c, model_exprs, checks, reuse=shared)
@@ -494,7 +531,7 @@ def replay(ctx, rp):
     edges = sorted({e for iv in ivs for e in iv})
     q = c.get('queries') or ([c['t']] if 't' in c else sorted({e + d for e in edges for d in (-UNIT // 2, 0, UNIT // 2)}))
     w = c.get('window')
-    case = {'ivs': ivs, 'queries': q, 'windows': [tuple(w)] if w else [('inf', -10 ** 15, 10 ** 15)],
+    case = {'ivs': ivs, 'layout': c.get('layout', 'F'), 'queries': q, 'windows': [tuple(w)] if w else [('inf', -10 ** 15, 10 ** 15)],
             'draws': c.get('draws') or [0, 2 ** 19], 'events': c.get('events') or []}
     model_exprs, checks = [], []
     ctx.case(case)
